@@ -56,6 +56,8 @@ def value_of(x):
         return {"contract": G.un_contract(x)}
     if isinstance(x, PolyhedralTermList):
         return {"terms": G.un_tl(x)}
+    if isinstance(x, list) and x and all(type(t).__name__ == "PolyhedralTerm" for t in x):
+        return {"terms": [G.un_term(t) for t in x]}
     if isinstance(x, bool):
         return {"bool": x}
     if x is None or isinstance(x, (int, float)):
@@ -132,7 +134,7 @@ def exec_op(op: dict, pool: list):
         d = ci.to_dict()
         return G.un_contract(PolyhedralIoContract.from_strings(d["assumptions"], d["guarantees"], d["input_vars"], d["output_vars"], simplify=False))
     if k == "parse":
-        return [G.un_term(t) for t in serializer.polyhedral_termlist_from_string(op["s"])]
+        return serializer.polyhedral_termlist_from_string(op["s"])     # the raw list of term objects the parser hands out
     if k == "contains":
         return bool((ci.a | ci.g).contains_behavior({Var(v): x for v, x in op["beh"].items()}))
     raise ValueError("unknown op " + k)
@@ -168,6 +170,12 @@ def scribble(r):
                 t.variables[kk] *= 3.0
             t.constant += 11.0
         r.terms.append(junk)
+    elif isinstance(r, list) and r and all(type(t).__name__ == "PolyhedralTerm" for t in r):
+        for t in r:
+            for kk in list(t.variables):
+                t.variables[kk] *= 3.0
+            t.constant += 11.0
+        r.append(junk)
     elif isinstance(r, list):
         r.append("zz")
     elif isinstance(r, dict):
